@@ -11,7 +11,6 @@
 package c07
 
 import (
-	"time"
 	"bytes"
 	"encoding/json"
 	"errors"
@@ -22,6 +21,7 @@ import (
 	"sort"
 	"strings"
 	"sync"
+	"time"
 
 	"go.starlark.net/starlark"
 	"go.starlark.net/syntax"
